@@ -311,4 +311,15 @@ func lcRecoverReservation(r *Run, ver int, knows, walletFault bool) {
 	if len(e.notifier.liveRegs(id, true)) == 0 {
 		bad("recovered reservation is not watched for its confirmation", "C20/i2")
 	}
+	// the auctioneer only holds a reservation for this key: unless recovery completes it (InitAccount with the
+	// located outpoint) the auctioneer never learns the output and cannot co-sign a later cooperative closure
+	r.Count("reservation/init-checked")
+	if e.auct.inits == 0 || e.auct.lastInit == nil {
+		bad(fmt.Sprintf("the reserved version-%d account was recovered (pending open at %v) but the auctioneer was never "+
+			"told its outpoint (no InitAccount): the reservation stays incomplete and a cooperative closure cannot be co-signed",
+			ver, rec.OutPoint), "C20/reservation-not-completed")
+	} else if *e.auct.lastInit != rec.OutPoint {
+		bad(fmt.Sprintf("the auctioneer was told outpoint %v for the recovered reservation, the stored record says %v",
+			*e.auct.lastInit, rec.OutPoint), "C20/reservation-not-completed")
+	}
 }
